@@ -264,14 +264,8 @@ func attribute(n interp.VerifOpNode) (c closure, ok bool) {
 		}
 		return closure{g, classOfKindName(n.TypKind), v, "none"}, true
 	case g == "inc" || g == "dec":
-		cls := classOfKindName(n.TypKind)
-		if cls == "uint" {
-			cls = "uintNoPtr"
-			if n.TypKind == "uintptr" {
-				cls = "other" // no arm for uintptr: no closure is generated
-			}
-		}
-		return closure{g, cls, "plain", "none"}, true
+		// the unsigned arm lists reflect.Uintptr like every other unsigned arm (repair 517ecf5 of F02-2)
+		return closure{g, classOfKindName(n.TypKind), "plain", "none"}, true
 	case cmpFns[g]:
 		k0, k1 := classOfKindName(n.C0Kind), classOfKindName(n.C1Kind)
 		cls := "other"
@@ -398,7 +392,7 @@ func canon(s *site, rest string, present bool) string {
 	}
 	rk := s.resultKind()
 	txt := rest
-	if s.Ctx == "iface" || s.Ctx == "ifacereuse" {
+	if isIfaceCtx(s.Ctx) {
 		i := strings.IndexByte(rest, ':')
 		// a defined type prints as <package>.<Name> in compiled Go (the batch oracle renames package main) and as its
 		// underlying type in the interpreter (class defined-type-dynamic-type)
@@ -474,36 +468,16 @@ func modelMatches(s *site, y, im string) bool {
 // ---------- classes of known divergences (decidable on the input) ----------
 
 func classOf(s *site, x, y string) string {
-	o := s.op()
-	if o.Group == "shift" && s.kind2().Signed && s.kind2().isInt() {
-		c := y
-		if s.Form == "cr" || s.Form == "cc" {
-			c = s.CR
-		}
-		if strings.HasPrefix(c, "-") {
-			return "shift-negative-count"
-		}
-	}
-	if o.Group == "shift" && s.Form == "cl" && s.CKind != "typed" && s.Ctx == "cond" {
-		return "shift-untyped-left-in-comparison"
-	}
-	if (s.Ctx == "iface" || s.Ctx == "ifacereuse") && s.resultKind().Under != "" {
+	// (the classes of the repaired findings F02, F02-2, F02-3, F02-5, F02-6, F02-7, F02-8 are gone: a divergence on a
+	// negative shift count, a uintptr ++/--, an interface destination or a -0 argument is a VIOLATION again)
+	if isIfaceCtx(s.Ctx) && s.resultKind().Under != "" {
 		return "defined-type-dynamic-type"
 	}
-	if s.Op == "lnot" && s.Ctx == "iface" {
-		return "lnot-iface-dest"
-	}
-	if s.Ctx == "ifacereuse" {
-		return "cmp-iface-dest-reused"
-	}
-	if o.Group == "incdec" && s.K == "uintptr" {
-		return "incdec-uintptr"
-	}
-	if s.Ctx == "iface" {
-		switch s.Op {
-		case "rem", "shl", "shr", "neg", "bitnot":
-			return "iface-dest-no-closure"
-		}
+	// F02-14: `var e interface{} = (-4) << b`, `return (-4) << b` into an interface result: the left operand is a
+	// parenthesised untyped constant (the generator parenthesises exactly the negative literals)
+	if o := s.op(); o.Group == "shift" && s.Form == "cl" && s.CKind == "lit" && strings.HasPrefix(s.CL, "-") &&
+		(s.Ctx == "ifacevar" || s.Ctx == "ifaceret" || s.Ctx == "ifaceret2") {
+		return "shift-paren-const-left-iface-decl"
 	}
 	if s.Op == "quo" && (s.kind().Class == "float" || s.kind().Class == "complex") && (s.Form == "cr" || s.Form == "cc") && isZeroConst(s.CR) {
 		return "float-div-const-zero"
@@ -522,16 +496,63 @@ func classOf(s *site, x, y string) string {
 	if s.kind().Class == "complex" && (s.Form == "c" || s.Form == "cc") {
 		return "const-complex-typed"
 	}
-	if s.Ctx == "ret" && (negZero(s.kind(), x) || negZero(s.kind2(), y)) {
-		return "float-negzero-param"
-	}
 	return ""
+}
+
+// isIfaceCtx: contexts whose destination is an interface value (the result is printed as %T:%v).
+func isIfaceCtx(ctx string) bool { return strings.HasPrefix(ctx, "iface") }
+
+// watched names the input classes of the REPAIRED findings (F02, F02-2, F02-3, F02-5, F02-7, F02-8): they are no
+// longer suppressed, only counted, so that the evidence shows the default stream still contains them.
+func watched(s *site, x, y string) []string {
+	var out []string
+	o := s.op()
+	if o.Group == "shift" && s.kind2().Signed && s.kind2().isInt() && s.Form != "cr" && s.Form != "cc" && strings.HasPrefix(y, "-") {
+		out = append(out, "F02:negative-shift-count/"+s.K2+"/src="+s.Src)
+	}
+	if o.Group == "incdec" && s.K == "uintptr" {
+		out = append(out, "F02-2:incdec-uintptr/"+s.Ctx)
+	}
+	if isIfaceCtx(s.Ctx) {
+		switch {
+		case s.Op == "rem" || o.Group == "shift" || s.Op == "neg" || s.Op == "bitnot" || s.Op == "pos":
+			out = append(out, "F02-3:iface-dest-operand-typed-op/"+s.Ctx)
+		case s.Op == "lnot" || o.Group == "logic":
+			out = append(out, "F02-7:iface-dest-bool-op/"+s.Ctx)
+		case o.Group == "cmp":
+			out = append(out, "F02-8:iface-dest-comparison/"+s.Ctx)
+		}
+	}
+	if strings.HasPrefix(s.Ctx, "ret") && (negZero(s.kind(), x) || negZero(s.kind2(), y)) {
+		w := "F02-5:negzero-argument/" + s.Ctx
+		if (allZero(s.kind(), x) || x == "-") && (allZero(s.kind2(), y) || y == "-") {
+			w += "/only-zeros" // every argument (aggregate) holds only ±0: reflect.Value.IsZero is true for it
+		}
+		out = append(out, w)
+	}
+	return out
+}
+
+// allZero: is the printed key of a float / complex operand ±0 (in both parts)?
+func allZero(k kindT, key string) bool {
+	nz := "9223372036854775808"
+	if k.Bits == 32 || k.Name == "complex64" {
+		nz = "2147483648"
+	}
+	switch k.Class {
+	case "float":
+		return key == "0" || key == nz
+	case "complex":
+		f := strings.Split(key, "_")
+		return len(f) == 2 && (f[0] == "0" || f[0] == nz) && (f[1] == "0" || f[1] == nz)
+	}
+	return false
 }
 
 // normFloat canonicalises NaN results (sign and payload of a NaN are not specified by the language).
 func normFloat(s *site, rest string) string {
 	rk := s.resultKind()
-	if rk.Class != "float" && rk.Class != "complex" || s.Ctx == "iface" || s.Ctx == "cond" || strings.HasPrefix(rest, "P:") {
+	if rk.Class != "float" && rk.Class != "complex" || isIfaceCtx(s.Ctx) || s.Ctx == "cond" || strings.HasPrefix(rest, "P:") {
 		return rest
 	}
 	w := rk.Bits
@@ -693,7 +714,7 @@ func keyOf(k kindT, expr string) string {
 
 func main() {
 	run := common.NewRun("C02")
-	run.Res.Rule = "cases = evaluations of one operator expression (operator x operand kind(s) x operand form {variable, literal, named typed constant, named untyped constant; integer constants also spelled in hex, as 123.0, 123e0 or as a rune} x result context {assign, define, op-assign, return, branch condition, interface destination, call argument, and the destinations global / slice element / struct field / map entry / pointer}) on one tuple of boundary values (min, max, -1, 0, 1, 2^k, 2^k+-1; NaN, +-Inf, -0, subnormals, rounding boundaries for floats); every variable x variable site of the product is generated on the tier's value tables, constant-form sites (one per constant value) are sampled by seed (quick 2%, thorough 40%; 30% of that in the additional destination contexts); every integer evaluation is also computed by the Lean model of the closure that ran (regenerated table entry) and by the Lean Go specification; non-trivial = not both operands in {0, 1} (a constant operand always counts); distinct = distinct (operator, kinds, form, constant spelling, context, operand values)"
+	run.Res.Rule = "cases = evaluations of one operator expression (operator x operand kind(s) x operand form {variable, literal, named typed constant, named untyped constant; integer constants also spelled in hex, as 123.0, 123e0 or as a rune} x result context {assign, define, op-assign, return through a function / struct parameter / array parameter / variadic parameter / method value / function literal, branch condition, interface destination {assigned variable, reused variable, var declaration, struct field, slice element, map entry, global, interface parameter, interface result (single and second of two)}, call argument, and the destinations global / slice element / struct field / map entry / pointer} x source of the variable operands {local variable; struct field, slice element, function-literal call, pointer, method value, global: sampled}) on one tuple of boundary values (min, max, -1, 0, 1, 2^k, 2^k+-1; NaN, +-Inf, -0, subnormals, rounding boundaries for floats); every variable x variable site of the product is generated on the tier's value tables, constant-form sites (one per constant value) are sampled by seed (quick 2%, thorough 40%; 30% of that in the additional destination contexts); every integer evaluation is also computed by the Lean model of the closure that ran (regenerated table entry) and by the Lean Go specification; non-trivial = not both operands in {0, 1} (a constant operand always counts); distinct = distinct (operator, kinds, form, constant spelling, context, operand values)"
 	defer run.Finish()
 	t0 := time.Now()
 
@@ -816,22 +837,306 @@ func main() {
 	run.Res.Distribution["sites:rejected-by-go-types"] = rejected
 	tImpl := time.Since(t0)
 
-	// the reference: the same programs, compiled (one build per batch of programs)
-	var srcs []string
+	// The programs are processed in batches (one `go build` per batch): reference run, evaluations, Lean drivers,
+	// comparison — then the batch's data is dropped, so that memory stays bounded in the thorough tier.
 	var live []*program
 	for _, p := range all {
 		if len(p.Sites) > 0 && p.Src != "" {
-			srcs = append(srcs, p.Src)
 			live = append(live, p)
 		}
 	}
-	const batch = 64
-	for i := 0; i < len(srcs); i += batch {
-		j := i + batch
-		if j > len(srcs) {
-			j = len(srcs)
+	nd := runtime.NumCPU() / 2
+	if nd < 1 {
+		nd = 1
+	}
+	var drivers []*common.Driver
+	defer func() {
+		for _, d := range drivers {
+			d.Close()
 		}
-		rs, err := common.RunGoBatch(srcs[i:j], 120*time.Second)
+	}()
+	var tRefD, tDrvD time.Duration
+	nInt, nFloat := 0, 0
+	knownFail := map[int]string{} // finding site id -> detail
+	fatal := false
+
+	process := func(live []*program) {
+		var evals []*evalT
+		// collect evaluations
+		for _, p := range live {
+			if p.G.CompileErr != "" {
+				run.Errorf("the Go toolchain rejects a generated program (go/types accepted it): %s", common.FirstLine(p.G.CompileErr))
+				continue
+			}
+			if p.G.Timeout {
+				run.Errorf("compiled program timed out")
+			}
+			p.yOut, p.gOut = parseOut(p.Y.Stdout), parseOut(p.G.Stdout)
+			for _, s := range p.Dropped {
+				run.Disagree(common.Disagreement{Kind: "impl-vs-ref", Input: s, Impl: "compile error: " + p.DropMsg[s.ID], Ref: "compiles",
+					Finding: classOf(s, "", "")})
+				run.Hit("impl:compile-error")
+			}
+			for _, s := range p.Sites {
+				node, found := findNode(s, p.Y.Nodes)
+				var cl closure
+				attrOK := false
+				if found {
+					cl, attrOK = attribute(node)
+				}
+				keys := map[string]bool{}
+				for k := range p.gOut[s.ID] {
+					keys[k] = true
+				}
+				for k := range p.yOut[s.ID] {
+					keys[k] = true
+				}
+				if len(p.gOut[s.ID]) != s.nEvals() {
+					run.Errorf("site %d (%s %s %s %s): the compiled program printed %d lines, %d evaluations expected", s.ID, s.Op, s.K, s.Form, s.Ctx, len(p.gOut[s.ID]), s.nEvals())
+				}
+				sorted := make([]string, 0, len(keys))
+				for k := range keys {
+					sorted = append(sorted, k)
+				}
+				sort.Strings(sorted)
+				for _, k := range sorted {
+					f := strings.SplitN(k, " ", 2)
+					e := &evalT{p: p, s: s, x: f[0], y: f[1], cl: cl, attrOK: attrOK}
+					e.im, e.imOK = p.yOut[s.ID][k]
+					if !e.imOK && p.Failed[s.ID] != "" {
+						e.fail = p.Failed[s.ID]
+					}
+					e.rf, e.rfOK = p.gOut[s.ID][k]
+					// integer evaluations go to the Lean driver
+					o := s.op()
+					if s.kind().isInt() && (s.kind2().isInt() || o.Group == "unary" || o.Group == "incdec") && o.Name != "lnot" {
+						if o.Group == "conv" {
+							sg := "0"
+							if s.kind().Signed {
+								sg = "1"
+							}
+							if v, ok := new(big.Int).SetString(firstNonDash(f[0], s.CL), 10); ok {
+								e.line = fmt.Sprintf("C02 conv %s %d %s 0 %d", sg, s.kind().Bits, bitsOf(v, s.kind().Bits).String(), s.kind2().Bits)
+							}
+						} else if attrOK && found {
+							k0, k1 := kindByName[node.C0Kind], kindByName[node.C1Kind]
+							a := sexpArg(node.C0ConstVal, k0, firstNonDash(f[0], s.CL))
+							b := sexpArg(node.C1ConstVal, k1, firstNonDash(f[1], s.CR))
+							if o.Group == "unary" || o.Group == "incdec" {
+								b = "-"
+							}
+							dk := kindByName[node.ConcreteKind]
+							if strings.HasSuffix(cl.Fn, "Assign") || cl.Fn == "inc" || cl.Fn == "dec" || cl.Variant == "fold" || cl.Fn == "neg" || cl.Fn == "pos" {
+								dk = kindByName[node.TypKind]
+							}
+							if cmpFns[cl.Fn] {
+								dk = s.kind()
+							}
+							if dk.isInt() {
+								sg := "0"
+								if dk.Signed {
+									sg = "1"
+								}
+								e.line = fmt.Sprintf("C02 ev %s %s %s %s %s %s %s %d", cl.Fn, cl.Cls, cl.Variant, cl.Sub, a, b, sg, dk.Bits)
+							}
+						}
+					}
+					if e.line == "" && attrOK && found {
+						e.line = floatLine(s, node, cl, f[0], f[1])
+					}
+					evals = append(evals, e)
+				}
+			}
+			if p.Y.Crash != "" || p.Isolated {
+				run.Hit("impl:program-failed-sites-isolated")
+			}
+			for range p.Failed {
+				run.Hit("impl:site-failed")
+			}
+			if p.Y.Timeout {
+				run.Hit("impl:timeout")
+			}
+		}
+
+		// ask the Lean drivers (several processes, pipelined)
+		tA := time.Now()
+		var lines []string
+		var idx []int
+		for i, e := range evals {
+			if e.line != "" {
+				lines = append(lines, e.line)
+				idx = append(idx, i)
+			}
+		}
+		use := nd
+		if len(lines) < 2000 {
+			use = 1
+		}
+		for len(drivers) < use {
+			drv, err := common.StartDriver("C02")
+			if err != nil {
+				run.Errorf("driver: %v", err)
+				fatal = true
+				return
+			}
+			drivers = append(drivers, drv)
+		}
+		answers := make([]string, len(lines))
+		chunk := (len(lines) + use - 1) / use
+		var dwg sync.WaitGroup
+		var derr error
+		for d := 0; d < use && chunk > 0; d++ {
+			lo, hi := d*chunk, (d+1)*chunk
+			if lo >= len(lines) {
+				break
+			}
+			if hi > len(lines) {
+				hi = len(lines)
+			}
+			dwg.Add(1)
+			go func(drv *common.Driver, lo, hi int) {
+				defer dwg.Done()
+				ans, err := drv.AskAll(lines[lo:hi])
+				if err != nil {
+					mu.Lock()
+					derr = err
+					mu.Unlock()
+					return
+				}
+				copy(answers[lo:hi], ans)
+			}(drivers[d], lo, hi)
+		}
+		dwg.Wait()
+		if derr != nil {
+			run.Errorf("driver: %v", derr)
+			fatal = true
+			return
+		}
+		for j, i := range idx {
+			evals[i].answer = answers[j]
+			if !strings.HasPrefix(lines[j], "C02 evf") {
+				nInt++
+			} else {
+				nFloat++
+			}
+		}
+		tDrvD += time.Since(tA)
+
+		// compare
+		for _, e := range evals {
+			s := e.s
+			isKnown := s.ID >= 900000
+			class := classOf(s, e.x, e.y)
+			if implDefined(s, e.x) {
+				run.Hit("class:implementation-defined(not compared)")
+				continue
+			}
+			e.im, e.rf = normFloat(s, e.im), normFloat(s, e.rf)
+			if isIfaceCtx(s.Ctx) && s.resultKind().Under != "" {
+				e.rf = batchPkgRe.ReplaceAllString(e.rf, "main.")
+			}
+			im, rf := canon(s, e.im, e.imOK), canon(s, e.rf, e.rfOK)
+			agreeRef := e.imOK == e.rfOK && e.im == e.rf
+			var y, g string
+			if e.answer != "" {
+				a := common.Fields(e.answer)
+				y, g = a["y"], a["g"]
+				if y == "" || g == "" {
+					run.Errorf("driver answered %q to %q", e.answer, e.line)
+				}
+			}
+			if isKnown {
+				if !agreeRef {
+					knownFail[s.ID] = fmt.Sprintf("impl=%q ref=%q model=%s", e.im, e.rf, y)
+				} else if _, seen := knownFail[s.ID]; !seen {
+					knownFail[s.ID] = ""
+				}
+				continue
+			}
+			sig := fmt.Sprintf("%s|%s|%s|%s|%s|%s|%s|%s|%s|%s|%s", s.Op, s.K, s.K2, s.Form, s.CKind, s.Ctx, s.CL, s.CR, e.x, e.y, s.Src)
+			nontrivial := !((e.x == "0" || e.x == "1" || e.x == "-") && (e.y == "0" || e.y == "1" || e.y == "-")) || s.Form != "vv" && s.Form != "v"
+			run.Count(fnv64(sig), nontrivial)
+			run.Hit("op:" + s.Op)
+			run.Hit("kind:" + s.K)
+			run.Hit("form:" + s.Form + "/" + s.CKind)
+			run.Hit("ctx:" + s.Ctx)
+			if s.Src != "" {
+				run.Hit("operand-source:" + s.Src)
+			}
+			// the inputs of the repaired findings stay observed (counted; a divergence on them is a VIOLATION)
+			for _, w := range watched(s, e.x, e.y) {
+				run.Hit("watch:" + w)
+			}
+			if e.attrOK {
+				run.Hit("closure:" + e.cl.String())
+			}
+			switch {
+			case strings.HasPrefix(rf, "p"):
+				run.Hit("ref:" + rf)
+			case rf == "missing":
+				run.Hit("ref:missing")
+			default:
+				run.Hit("ref:value")
+			}
+			if class != "" {
+				run.Hit("class:" + class)
+			} else {
+				run.Hit("class:in-domain")
+			}
+			if y != "" && strings.HasPrefix(e.line, "C02 evf") {
+				run.Hit("level:impl=model=spec=ref(float, run-time model only)")
+			} else if y != "" {
+				run.Hit("level:impl=model=spec=ref")
+			} else {
+				run.Hit("level:impl=ref-only")
+			}
+			input := oneValue(s, e.x, e.y)
+			if h := fnv64(sig); h[0] == 0 && h[1]&0x3f == 0 || len(run.Res.Samples) < 2 {
+				run.Sample(map[string]interface{}{"case": input, "closure": e.cl.String(), "impl": e.im, "model": y, "spec": g, "ref": e.rf}, 12)
+			}
+			modelOK := true
+			if y != "" && y != "unmodelled" {
+				if !modelMatches(s, y, im) {
+					modelOK = false
+					run.Disagree(common.Disagreement{Kind: "impl-vs-model", Input: input, Impl: e.im, Model: y, Ref: e.rf, Note: "closure " + e.cl.String()})
+				}
+			} else if y == "unmodelled" {
+				run.Hit("model:unmodelled")
+			}
+			if g != "" && g != "unmodelled" {
+				if !modelMatches(s, g, rf) {
+					run.Disagree(common.Disagreement{Kind: "spec-vs-ref", Input: input, Spec: g, Ref: e.rf})
+				}
+			}
+			if !agreeRef {
+				d := common.Disagreement{Kind: "impl-vs-ref", Input: input, Impl: e.im, Model: y, Ref: e.rf, Finding: class, Note: "closure " + e.cl.String()}
+				if !e.imOK {
+					d.Impl = "(no output)"
+					if e.fail != "" {
+						d.Impl = "(no output) " + e.fail
+					}
+				}
+				run.Hit("diff:" + class + ":" + s.Op + "/" + s.kind().Class + "/" + s.Form + "/" + s.Ctx)
+				if !modelOK {
+					d.Finding, d.Note = "", "differs from the reference and from the model of the unchanged code; closure "+e.cl.String()
+				}
+				run.Disagree(d)
+			}
+		}
+	} // process
+
+	const batch = 64
+	for i := 0; i < len(live) && !fatal; i += batch {
+		j := i + batch
+		if j > len(live) {
+			j = len(live)
+		}
+		tR := time.Now()
+		srcs := make([]string, 0, j-i)
+		for _, p := range live[i:j] {
+			srcs = append(srcs, p.Src)
+		}
+		rs, err := common.RunGoBatch(srcs, 120*time.Second)
 		if err != nil {
 			run.Errorf("go batch: %v", err)
 			return
@@ -839,265 +1144,15 @@ func main() {
 		for k, r := range rs {
 			live[i+k].G = r
 		}
-	}
-	tRef := time.Since(t0)
-
-	// collect evaluations
-	var evals []*evalT
-	for _, p := range live {
-		if p.G.CompileErr != "" {
-			run.Errorf("the Go toolchain rejects a generated program (go/types accepted it): %s", common.FirstLine(p.G.CompileErr))
-			continue
-		}
-		if p.G.Timeout {
-			run.Errorf("compiled program timed out")
-		}
-		p.yOut, p.gOut = parseOut(p.Y.Stdout), parseOut(p.G.Stdout)
-		for _, s := range p.Dropped {
-			run.Disagree(common.Disagreement{Kind: "impl-vs-ref", Input: s, Impl: "compile error: " + p.DropMsg[s.ID], Ref: "compiles",
-				Finding: classOf(s, "", "")})
-			run.Hit("impl:compile-error")
-		}
-		for _, s := range p.Sites {
-			node, found := findNode(s, p.Y.Nodes)
-			var cl closure
-			attrOK := false
-			if found {
-				cl, attrOK = attribute(node)
-			}
-			keys := map[string]bool{}
-			for k := range p.gOut[s.ID] {
-				keys[k] = true
-			}
-			for k := range p.yOut[s.ID] {
-				keys[k] = true
-			}
-			if len(p.gOut[s.ID]) != s.nEvals() {
-				run.Errorf("site %d (%s %s %s %s): the compiled program printed %d lines, %d evaluations expected", s.ID, s.Op, s.K, s.Form, s.Ctx, len(p.gOut[s.ID]), s.nEvals())
-			}
-			sorted := make([]string, 0, len(keys))
-			for k := range keys {
-				sorted = append(sorted, k)
-			}
-			sort.Strings(sorted)
-			for _, k := range sorted {
-				f := strings.SplitN(k, " ", 2)
-				e := &evalT{p: p, s: s, x: f[0], y: f[1], cl: cl, attrOK: attrOK}
-				e.im, e.imOK = p.yOut[s.ID][k]
-				if !e.imOK && p.Failed[s.ID] != "" {
-					e.fail = p.Failed[s.ID]
-				}
-				e.rf, e.rfOK = p.gOut[s.ID][k]
-				// integer evaluations go to the Lean driver
-				o := s.op()
-				if s.kind().isInt() && (s.kind2().isInt() || o.Group == "unary" || o.Group == "incdec") && o.Name != "lnot" {
-					if o.Group == "conv" {
-						sg := "0"
-						if s.kind().Signed {
-							sg = "1"
-						}
-						if v, ok := new(big.Int).SetString(firstNonDash(f[0], s.CL), 10); ok {
-							e.line = fmt.Sprintf("C02 conv %s %d %s 0 %d", sg, s.kind().Bits, bitsOf(v, s.kind().Bits).String(), s.kind2().Bits)
-						}
-					} else if attrOK && found {
-						k0, k1 := kindByName[node.C0Kind], kindByName[node.C1Kind]
-						a := sexpArg(node.C0ConstVal, k0, firstNonDash(f[0], s.CL))
-						b := sexpArg(node.C1ConstVal, k1, firstNonDash(f[1], s.CR))
-						if o.Group == "unary" || o.Group == "incdec" {
-							b = "-"
-						}
-						dk := kindByName[node.ConcreteKind]
-						if strings.HasSuffix(cl.Fn, "Assign") || cl.Fn == "inc" || cl.Fn == "dec" || cl.Variant == "fold" || cl.Fn == "neg" || cl.Fn == "pos" {
-							dk = kindByName[node.TypKind]
-						}
-						if cmpFns[cl.Fn] {
-							dk = s.kind()
-						}
-						if dk.isInt() {
-							sg := "0"
-							if dk.Signed {
-								sg = "1"
-							}
-							e.line = fmt.Sprintf("C02 ev %s %s %s %s %s %s %s %d", cl.Fn, cl.Cls, cl.Variant, cl.Sub, a, b, sg, dk.Bits)
-						}
-					}
-				}
-				// (a float −0 passed as a parameter is altered before it reaches the closure, class float-negzero-param:
-				// the closure's model is not applicable to the printed operands there)
-				if e.line == "" && attrOK && found && classOf(s, f[0], f[1]) != "float-negzero-param" {
-					e.line = floatLine(s, node, cl, f[0], f[1])
-				}
-				evals = append(evals, e)
-			}
-		}
-		if p.Y.Crash != "" || p.Isolated {
-			run.Hit("impl:program-failed-sites-isolated")
-		}
-		for range p.Failed {
-			run.Hit("impl:site-failed")
-		}
-		if p.Y.Timeout {
-			run.Hit("impl:timeout")
+		tRefD += time.Since(tR)
+		process(live[i:j])
+		for _, p := range live[i:j] {
+			// drop the batch's data
+			p.Y.Stdout, p.Y.Nodes, p.G, p.yOut, p.gOut, p.Src = "", nil, common.GoResult{}, nil, nil, ""
 		}
 	}
-
-	// ask the Lean drivers (several processes, pipelined)
-	var lines []string
-	var idx []int
-	for i, e := range evals {
-		if e.line != "" {
-			lines = append(lines, e.line)
-			idx = append(idx, i)
-		}
-	}
-	nd := runtime.NumCPU() / 2
-	if nd < 1 {
-		nd = 1
-	}
-	if len(lines) < 2000 {
-		nd = 1
-	}
-	answers := make([]string, len(lines))
-	chunk := (len(lines) + nd - 1) / nd
-	var dwg sync.WaitGroup
-	var derr error
-	for d := 0; d < nd && chunk > 0; d++ {
-		lo, hi := d*chunk, (d+1)*chunk
-		if lo >= len(lines) {
-			break
-		}
-		if hi > len(lines) {
-			hi = len(lines)
-		}
-		dwg.Add(1)
-		go func(lo, hi int) {
-			defer dwg.Done()
-			drv, err := common.StartDriver("C02")
-			if err != nil {
-				mu.Lock()
-				derr = err
-				mu.Unlock()
-				return
-			}
-			defer drv.Close()
-			ans, err := drv.AskAll(lines[lo:hi])
-			if err != nil {
-				mu.Lock()
-				derr = err
-				mu.Unlock()
-				return
-			}
-			copy(answers[lo:hi], ans)
-		}(lo, hi)
-	}
-	dwg.Wait()
-	if derr != nil {
-		run.Errorf("driver: %v", derr)
+	if fatal {
 		return
-	}
-	nInt := 0
-	for j, i := range idx {
-		evals[i].answer = answers[j]
-		if !strings.HasPrefix(lines[j], "C02 evf") {
-			nInt++
-		}
-	}
-	tDrv := time.Since(t0)
-
-	// compare
-	knownFail := map[int]string{} // finding site id -> detail
-	for _, e := range evals {
-		s := e.s
-		isKnown := s.ID >= 900000
-		class := classOf(s, e.x, e.y)
-		if implDefined(s, e.x) {
-			run.Hit("class:implementation-defined(not compared)")
-			continue
-		}
-		e.im, e.rf = normFloat(s, e.im), normFloat(s, e.rf)
-		if (s.Ctx == "iface" || s.Ctx == "ifacereuse") && s.resultKind().Under != "" {
-			e.rf = batchPkgRe.ReplaceAllString(e.rf, "main.")
-		}
-		im, rf := canon(s, e.im, e.imOK), canon(s, e.rf, e.rfOK)
-		agreeRef := e.imOK == e.rfOK && e.im == e.rf
-		var y, g string
-		if e.answer != "" {
-			a := common.Fields(e.answer)
-			y, g = a["y"], a["g"]
-			if y == "" || g == "" {
-				run.Errorf("driver answered %q to %q", e.answer, e.line)
-			}
-		}
-		if isKnown {
-			if !agreeRef {
-				knownFail[s.ID] = fmt.Sprintf("impl=%q ref=%q model=%s", e.im, e.rf, y)
-			} else if _, seen := knownFail[s.ID]; !seen {
-				knownFail[s.ID] = ""
-			}
-			continue
-		}
-		sig := fmt.Sprintf("%s|%s|%s|%s|%s|%s|%s|%s|%s|%s", s.Op, s.K, s.K2, s.Form, s.CKind, s.Ctx, s.CL, s.CR, e.x, e.y)
-		nontrivial := !((e.x == "0" || e.x == "1" || e.x == "-") && (e.y == "0" || e.y == "1" || e.y == "-")) || s.Form != "vv" && s.Form != "v"
-		run.Count(fnv64(sig), nontrivial)
-		run.Hit("op:" + s.Op)
-		run.Hit("kind:" + s.K)
-		run.Hit("form:" + s.Form + "/" + s.CKind)
-		run.Hit("ctx:" + s.Ctx)
-		if e.attrOK {
-			run.Hit("closure:" + e.cl.String())
-		}
-		switch {
-		case strings.HasPrefix(rf, "p"):
-			run.Hit("ref:" + rf)
-		case rf == "missing":
-			run.Hit("ref:missing")
-		default:
-			run.Hit("ref:value")
-		}
-		if class != "" {
-			run.Hit("class:" + class)
-		} else {
-			run.Hit("class:in-domain")
-		}
-		if y != "" && strings.HasPrefix(e.line, "C02 evf") {
-			run.Hit("level:impl=model=spec=ref(float, run-time model only)")
-		} else if y != "" {
-			run.Hit("level:impl=model=spec=ref")
-		} else {
-			run.Hit("level:impl=ref-only")
-		}
-		input := oneValue(s, e.x, e.y)
-		if h := fnv64(sig); h[0] == 0 && h[1]&0x3f == 0 || len(run.Res.Samples) < 2 {
-			run.Sample(map[string]interface{}{"case": input, "closure": e.cl.String(), "impl": e.im, "model": y, "spec": g, "ref": e.rf}, 12)
-		}
-		modelOK := true
-		if y != "" && y != "unmodelled" {
-			if !modelMatches(s, y, im) {
-				modelOK = false
-				run.Disagree(common.Disagreement{Kind: "impl-vs-model", Input: input, Impl: e.im, Model: y, Ref: e.rf, Note: "closure " + e.cl.String()})
-			}
-		} else if y == "unmodelled" {
-			run.Hit("model:unmodelled")
-		}
-		if g != "" && g != "unmodelled" {
-			if !modelMatches(s, g, rf) {
-				run.Disagree(common.Disagreement{Kind: "spec-vs-ref", Input: input, Spec: g, Ref: e.rf})
-			}
-		}
-		if !agreeRef {
-			d := common.Disagreement{Kind: "impl-vs-ref", Input: input, Impl: e.im, Model: y, Ref: e.rf, Finding: class, Note: "closure " + e.cl.String()}
-			if !e.imOK {
-				d.Impl = "(no output)"
-				if e.fail != "" {
-					d.Impl = "(no output) " + e.fail
-				}
-			}
-			run.Hit("diff:" + class + ":" + s.Op + "/" + s.kind().Class + "/" + s.Form + "/" + s.Ctx)
-			if !modelOK {
-				d.Finding, d.Note = "", "differs from the reference and from the model of the unchanged code; closure "+e.cl.String()
-			}
-			run.Disagree(d)
-		}
 	}
 	if !replaying {
 		for i, f := range findings {
@@ -1119,15 +1174,15 @@ func main() {
 	}
 	run.Res.Extra = map[string]interface{}{
 		"sites": len(sites), "programs": len(progs),
-		"seconds_impl": tImpl.Seconds(), "seconds_ref": (tRef - tImpl).Seconds(), "seconds_driver": (tDrv - tRef).Seconds(),
-		"integer_evaluations_checked_against_lean": nInt, "float_evaluations_checked_against_lean_runtime_model": len(lines) - nInt,
+		"seconds_impl": tImpl.Seconds(), "seconds_ref": tRefD.Seconds(), "seconds_driver": tDrvD.Seconds(),
+		"integer_evaluations_checked_against_lean": nInt, "float_evaluations_checked_against_lean_runtime_model": nFloat,
 	}
 }
 
 // floatLine: the driver request for a float32/float64 evaluation (Model/OpsFloat.lean), "" if not applicable.
 func floatLine(s *site, node interp.VerifOpNode, cl closure, x, y string) string {
 	o := s.op()
-	if s.kind().Class != "float" || s.Ctx == "iface" || s.Ctx == "ifacereuse" {
+	if s.kind().Class != "float" || isIfaceCtx(s.Ctx) {
 		return ""
 	}
 	if cl.Variant == "fold" {
